@@ -5,6 +5,7 @@
 -/
 import GoIpa.Props.C15
 import Mathlib.Tactic.Ring
+import Mathlib.Data.Nat.ModEq
 namespace GoIpa.Cios
 open GoIpa GoIpa.Limbs
 
@@ -296,5 +297,141 @@ theorem mulG_correct (x y : L4) (hx : x.ok) (hy : y.ok) (hyr : y.val < R) :
       _ = (a0 + m0 * R) + W * a1 + W * m1 * R + W * W * a2 + W * W * m2 * R + W * W * W * a3 + W * W * W * m3 * R := by rw [h1]
       _ = _ := by ring
   rw [key, Nat.add_mul_mod_self_right]
+
+/-! ### `_fromMontGeneric` -/
+
+def fmRoundM (z : L4) : L4 :=
+  let m := (z.l0 * qInvNeg) % W
+  let c0 := (m * q0 + z.l0) / W
+  let b1 := m * q1 + z.l1 + c0
+  let b2 := m * q2 + z.l2 + b1 / W
+  let b3 := m * q3 + z.l3 + b2 / W
+  ⟨b1 % W, b2 % W, b3 % W, b3 / W⟩
+
+theorem fromMontRound_eq (z : L4) (hz : z.ok) : fromMontRound z = fmRoundM z := by
+  obtain ⟨z0, z1, z2, z3⟩ := z
+  obtain ⟨h0, h1, h2, h3⟩ := hz
+  simp only at h0 h1 h2 h3
+  obtain ⟨hq0, hq1, hq2, hq3⟩ := q_lt
+  have hW : 0 < W := by decide
+  unfold fromMontRound fmRoundM
+  simp only
+  have hm : z0 * qInvNeg % W < W := Nat.mod_lt _ hW
+  generalize z0 * qInvNeg % W = m at *
+  rw [madd0_spec m q0 z0 hm hq0 h0]
+  have hc0 : (m * q0 + z0) / W < W := div_lt_W _ (by
+    have := mul_bound _ q0 hm hq0
+    unfold W at *; omega)
+  rw [madd2_spec m q1 z1 _ hm hq1 h1 hc0]
+  simp only
+  generalize (m * q0 + z0) / W = c0 at *
+  have hc1 : (m * q1 + z1 + c0) / W < W := div_lt_W _ (by
+    have := mul_bound _ q1 hm hq1
+    unfold W at *; omega)
+  rw [madd2_spec m q2 z2 _ hm hq2 h2 hc1]
+  simp only
+  generalize m * q1 + z1 + c0 = b1 at *
+  have hc2 : (m * q2 + z2 + b1 / W) / W < W := div_lt_W _ (by
+    have := mul_bound _ q2 hm hq2
+    unfold W at *; omega)
+  rw [madd2_spec m q3 z3 _ hm hq3 h3 hc2]
+
+/-- one reduction round: `z'·2^64 = z + m·q`, never overflowing -/
+theorem fmRoundM_spec (z : L4) (hz : z.ok) :
+    (fmRoundM z).ok ∧ (fmRoundM z).val * W = z.val + (z.l0 * qInvNeg % W) * R := by
+  obtain ⟨z0, z1, z2, z3⟩ := z
+  obtain ⟨h0, h1, h2, h3⟩ := hz
+  unfold fmRoundM L4.ok L4.val R W q0 q1 q2 q3 qInvNeg at *
+  simp only at *
+  omega
+
+/-- **`_fromMontGeneric`.** For every limb vector `z`: the result is fully reduced and
+`fromMont(z)·2^256 ≡ z (mod q)`. -/
+theorem fromMontG_correct (z : L4) (hz : z.ok) :
+    (fromMontG z).ok ∧ (fromMontG z).val < R ∧ ((fromMontG z).val * (W * W * W * W)) % R = z.val % R := by
+  unfold fromMontG
+  have hW : 0 < W := by decide
+  rw [fromMontRound_eq z hz]
+  obtain ⟨ok1, e1⟩ := fmRoundM_spec z hz
+  have m1 : z.l0 * qInvNeg % W < W := Nat.mod_lt _ hW
+  generalize z.l0 * qInvNeg % W = k1 at *
+  generalize fmRoundM z = z1 at *
+  rw [fromMontRound_eq z1 ok1]
+  obtain ⟨ok2, e2⟩ := fmRoundM_spec z1 ok1
+  have m2 : z1.l0 * qInvNeg % W < W := Nat.mod_lt _ hW
+  generalize z1.l0 * qInvNeg % W = k2 at *
+  generalize fmRoundM z1 = z2 at *
+  rw [fromMontRound_eq z2 ok2]
+  obtain ⟨ok3, e3⟩ := fmRoundM_spec z2 ok2
+  have m3 : z2.l0 * qInvNeg % W < W := Nat.mod_lt _ hW
+  generalize z2.l0 * qInvNeg % W = k3 at *
+  generalize fmRoundM z2 = z3 at *
+  rw [fromMontRound_eq z3 ok3]
+  obtain ⟨ok4, e4⟩ := fmRoundM_spec z3 ok3
+  have m4 : z3.l0 * qInvNeg % W < W := Nat.mod_lt _ hW
+  generalize z3.l0 * qInvNeg % W = k4 at *
+  generalize fmRoundM z3 = z4 at *
+  have hzv : z.val < W * W * W * W := by
+    obtain ⟨h0, h1, h2, h3⟩ := hz
+    unfold L4.val W at *; omega
+  have key : z4.val * (W * W * W * W) = z.val + (k1 + W * k2 + W * W * k3 + W * W * W * k4) * R := by
+    have h4 : z4.val * (W * W * W * W) = W * W * W * (z3.val + k4 * R) := by rw [← e4]; ring
+    have h3 : W * W * W * z3.val = W * W * (z2.val + k3 * R) := by rw [← e3]; ring
+    have h2 : W * W * z2.val = W * (z1.val + k2 * R) := by rw [← e2]; ring
+    have h1 : W * z1.val = z.val + k1 * R := by rw [← e1]; ring
+    calc z4.val * (W * W * W * W) = W * W * W * z3.val + W * W * W * k4 * R := by rw [h4]; ring
+      _ = W * W * z2.val + W * W * k3 * R + W * W * W * k4 * R := by rw [h3]; ring
+      _ = W * z1.val + W * k2 * R + W * W * k3 * R + W * W * W * k4 * R := by rw [h2]; ring
+      _ = _ := by rw [h1]; ring
+  have r4 : z4.val < 2 * R := by
+    have hk : k1 + W * k2 + W * W * k3 + W * W * W * k4 ≤ W * W * W * W - 1 := by
+      unfold W at *; omega
+    have hkr := Nat.mul_le_mul_right R hk
+    generalize (k1 + W * k2 + W * W * k3 + W * W * W * k4) * R = kr at *
+    have hb : (W * W * W * W - 1) * R + W * W * W * W ≤ 2 * R * (W * W * W * W) - 1 := by decide
+    generalize (W * W * W * W - 1) * R = c at *
+    have hpos : 0 < W * W * W * W := by decide
+    by_contra hge
+    have : 2 * R * (W * W * W * W) ≤ z4.val * (W * W * W * W) := Nat.mul_le_mul_right _ (by omega)
+    omega
+  obtain ⟨okr, hmod, hlt⟩ := C15.reduceG_correct z4 ok4 r4
+  refine ⟨okr, hlt, ?_⟩
+  rw [hmod, Nat.mod_mul_mod, key, Nat.add_mul_mod_self_right]
+
+/-! ### Montgomery form -/
+
+/-- `2^256`, the Montgomery radix -/
+def R256 : Nat := W * W * W * W
+
+theorem coprime_radix : Nat.Coprime R256 R := by decide
+theorem gcd_radix : Nat.gcd R R256 = 1 := by decide
+
+/-- `x` is the Montgomery representation of the residue `a` -/
+def Repr (x : L4) (a : Nat) : Prop := x.val ≡ a * R256 [MOD R]
+
+/-- **`Mul` on Montgomery representations is multiplication modulo `r`.** -/
+theorem mulG_repr (x y : L4) (a b : Nat) (hx : x.ok) (hy : y.ok) (hyr : y.val < R)
+    (ha : Repr x a) (hb : Repr y b) : Repr (mulG x y) (a * b) ∧ (mulG x y).val < R ∧ (mulG x y).ok := by
+  obtain ⟨ok, lt, h⟩ := mulG_correct x y hx hy hyr
+  refine ⟨?_, lt, ok⟩
+  unfold Repr at *
+  have h1 : (mulG x y).val * R256 ≡ x.val * y.val [MOD R] := h
+  have h2 : x.val * y.val ≡ (a * R256) * (b * R256) [MOD R] := Nat.ModEq.mul ha hb
+  have h3 : (mulG x y).val * R256 ≡ (a * b * R256) * R256 [MOD R] := by
+    refine (h1.trans h2).trans ?_
+    rw [show a * R256 * (b * R256) = a * b * R256 * R256 by ring]
+  exact Nat.ModEq.cancel_right_of_coprime gcd_radix h3
+
+/-- **`FromMont` returns the residue itself.** -/
+theorem fromMontG_repr (x : L4) (a : Nat) (hx : x.ok) (ha : Repr x a) :
+    (fromMontG x).val = a % R ∧ (fromMontG x).ok := by
+  obtain ⟨ok, lt, h⟩ := fromMontG_correct x hx
+  refine ⟨?_, ok⟩
+  have h1 : (fromMontG x).val * R256 ≡ x.val [MOD R] := h
+  have h2 : (fromMontG x).val * R256 ≡ a * R256 [MOD R] := h1.trans ha
+  have h3 : (fromMontG x).val ≡ a [MOD R] :=
+    Nat.ModEq.cancel_right_of_coprime gcd_radix h2
+  have : (fromMontG x).val % R = a % R := h3
+  rw [← this, Nat.mod_eq_of_lt lt]
 
 end GoIpa.Cios
